@@ -83,14 +83,18 @@ def spd_band(rng, n, band, diag):
     return C
 
 
-def decorate(rng, net, extern=0.3, dh=0.3, coords=False, vectors=False, obscov=0.0, hdcov=0.0):
+EXTERN_POOL = ["e1", "ext 2", "a&b", 'q"t', "<x>", "o'c", "é", "id=7;k"]
+EXTERN_SAFE = ["e1", "ext 2", "é", "id=7;k", "X-17"]
+
+
+def decorate(rng, net, extern=0.3, dh=0.3, coords=False, vectors=False, obscov=0.0, hdcov=0.0, extern_pool=None):
     """add attributes (in place); geometry stays consistent only where gama ignores the attribute
     (extern) or the caller generated the values with the heights already applied"""
     ids = list(net["points"])
     for o in net["obs"]:
         for it in o["items"]:
             if rng.random() < extern:
-                it["extern"] = rng.choice(["e1", "ext 2", "a&b", 'q"t', "<x>", "o'c", "é", "id=7;k"])
+                it["extern"] = rng.choice(extern_pool or EXTERN_POOL)
         if o["kind"] == "obs":
             if rng.random() < obscov and len(o["items"]) >= 2:
                 n = len(o["items"])
